@@ -13,6 +13,18 @@ Two parts:
     from ..p import q, deeper levels, star) issued from a script outside sys.path, from a script in a root and from
     modules and __init__.py files at every depth.
 
+C. seeded random *star import programs*: projects of 2-4 layered units (regular packages, a namespace package
+    split over the roots, top-level modules; nested sub-packages up to dotted depth 4) whose modules share their LAST
+    name component across packages (pa.util, pb.util, pa.sub.util, util) and also carry it as a package name
+    (pb/util/__init__.py); every file binds project-unique names (functions, classes, strings, aliases of modules and
+    of imported names, `from . import x7`) and re-exports the names of up to 3 earlier files through absolute and
+    relative star imports, so that star imports form chains and diamonds; the program under test is a SEQUENCE of
+    1-3 import statements (star imports - absolute and relative -, from-imports [as] of names a module only has through
+    its star imports, `import T as z` followed by z.name for a top-level T) appended to a script or to a module / __init__.py of the
+    tree, i.e. several star imports are in effect for one module at once.  Because every name denotes one object in
+    the whole project, the order of the bindings never matters and the expectation is exact: the object the
+    interpreter binds, or nothing when no import of the program binds the name.
+
 The oracle is always a child interpreter that really executes the statement (in the namespace of the really imported
 importing module) and describes the live object bound to the name: a module's __file__, a namespace package's __path__,
 the code object of a function (file, line) or the location a class / string carries in its value."""
@@ -827,13 +839,13 @@ def _ns_paths(n):
 class _Oracle:
     """the child interpreter of one project"""
 
-    def __init__(self, layout, top, cfg):
+    def __init__(self, layout, top, cfg, program=None):
         self.err = tempfile.TemporaryFile(mode='w+', dir=os.environ['STANDIN_TMP'])
         flags = ['-B', '-S']
         env = dict(os.environ)
         env.pop('PYTHONSTARTUP', None)
         self.what = 'layout %s' % layout['index']
-        self.p = subprocess.Popen([sys.executable] + flags + ['-c', ORACLE_B], stdin=subprocess.PIPE,
+        self.p = subprocess.Popen([sys.executable] + flags + ['-c', program or ORACLE_B], stdin=subprocess.PIPE,
                                   stdout=subprocess.PIPE, stderr=self.err, text=True, cwd=top, env=env)
         self.send(cfg)
 
@@ -1048,6 +1060,430 @@ def check_generated(args):
     return evaluations, violations, [sample], stats
 
 
+# --------------------------------------------------------------------------------------------------------------------
+# part C (star import programs: several star imports in effect for one module)
+# --------------------------------------------------------------------------------------------------------------------
+
+C_TOPS = ['pa', 'pb', 'pc', 'pd']       # top-level packages
+C_LEAVES = ['util', 'base', 'core']     # last name components: modules, sub-packages and top-level modules share them
+C_SUBS = C_LEAVES + ['sub']
+N_STAR_LAYOUTS = {'quick': 72, 'thorough': 300}
+N_STAR_QUERIES = {'quick': 36, 'thorough': 60}
+
+ORACLE_C = r'''
+import sys, json, importlib, importlib.util, os, types
+sys.dont_write_bytecode = True
+cfg = json.loads(sys.stdin.readline())
+top = cfg['top']
+TOPS = set(cfg['tops'])
+for t in sorted(TOPS):
+    if importlib.util.find_spec(t) is not None:
+        raise SystemExit('HARNESS: name %r of the pool is importable without the generated roots' % t)
+sys.path[:0] = cfg['roots']
+norm = os.path.normpath
+
+
+def fresh():
+    for m in [k for k in list(sys.modules) if k.split('.')[0] in TOPS]:
+        del sys.modules[m]
+
+
+def describe(obj):
+    if isinstance(obj, types.ModuleType):
+        f = getattr(obj, '__file__', None)
+        if f:
+            return ['file', norm(f), obj.__name__]
+        return ['namespace', [norm(p) for p in obj.__path__], obj.__name__]
+    if isinstance(obj, types.FunctionType):
+        return ['def', norm(obj.__code__.co_filename), obj.__code__.co_firstlineno, obj.__name__, 'function']
+    loc = kind = None
+    if isinstance(obj, type) and isinstance(vars(obj).get('LOC'), str):
+        loc, kind = vars(obj)['LOC'], 'class'
+    elif isinstance(obj, str):
+        loc, kind = obj, 'statement'
+    if loc is not None and loc.startswith('LOC:'):
+        _, rel, line, name = loc.split(':')
+        return ['def', norm(os.path.join(top, rel)), int(line), name, kind]
+    return ['value', type(obj).__name__]
+
+
+out = []
+for importer, stmts, usage in cfg['queries']:
+    fresh()
+    try:
+        if importer is None:
+            ns = {'__name__': '__main__', '__package__': None, '__builtins__': __builtins__}
+        else:
+            ns = importlib.import_module(importer).__dict__
+        exec(stmts, ns)
+    except Exception as e:
+        # (every statement of the generated programs imports something that exists)
+        out.append(['failed', type(e).__name__ + ': ' + str(e)])
+        continue
+    try:
+        obj = eval(usage, ns)
+    except (NameError, AttributeError):
+        out.append(['unbound'])
+        continue
+    out.append(describe(obj))
+print('ORACLE-C ' + json.dumps(out))
+sys.stdout.flush()
+'''
+
+
+def gen_star_layout(seed, index):
+    """A project for part C.  The files are generated in an order that is a topological order of the imports (a file
+    only imports from files generated before it, a package __init__ after everything below the package, units one
+    after the other): no import cycle, no partially initialised module, whatever is imported first.
+
+    entries: [{'rel', 'dotted', 'init', 'exports': {name: object}, 'reach': [dotted names star-reachable, in order]}]
+    objects: ('module', dotted) or ('def', rel, line, name, kind)"""
+    rng = random.Random('C:%s:%s' % (seed, index))
+    n_roots = rng.choice([1, 1, 2])
+    rootnames = ['r%d' % (i + 1) for i in range(n_roots)]
+    files = {}
+    entries = []
+    modules = {}        # dotted (tuple) -> ('file', rel) | ('namespace', [dirs])
+    children = {}       # dotted of a package -> names of its sub-modules / sub-packages
+    counter = [0]
+
+    def unique(prefix):
+        counter[0] += 1
+        return '%s%d' % (prefix, counter[0])
+
+    def spellings(package, target):
+        """the ways to write the dotted name `target` in a from-import of a module of `package`"""
+        out = ['.'.join(target)]
+        c = 0
+        while c < len(package) and c < len(target) and package[c] == target[c]:
+            c += 1
+        if c >= 1 and len(target) > c:
+            out.append('.' * (len(package) - c + 1) + '.'.join(target[c:]))
+        elif c >= 1 and len(target) == c:
+            out.append('.' * (len(package) - c + 1))
+        return out
+
+    def statement(rng, package, t, alias_prefix, star_weight, own_children=()):
+        """one import statement that refers to the earlier entry / namespace package `t`;
+        returns (text, {bound name: object}, star-reached dotted names)"""
+        dotted = t['dotted']
+        forms = ['star'] * star_weight
+        if t['exports']:
+            forms += ['name as', 'name as', 'name']
+        # A star import from a package also copies the sub-modules that happen to be imported already, under their
+        # (shared) last names, and such a copy can hide a sub-module of the importing package: wherever a shared
+        # name would be looked up as an ATTRIBUTE of a package (import pa.util as m, from pa import util) the
+        # history of the process decides.  Modules with a shared last name are therefore only named in from-parts
+        # (found by their full name); module objects are bound for top-level names and for the modules with a
+        # project-unique name.
+        if len(dotted) == 1:
+            forms += ['import as', 'import as']
+        elif dotted[-1] not in C_SUBS:
+            forms += ['sub', 'sub', 'sub']
+        form = rng.choice(forms)
+        if form == 'import as':
+            a = unique(alias_prefix)
+            return 'import %s as %s' % (dotted[0], a), {a: ('module', dotted)}, []
+        if form == 'sub':
+            # the module as an attribute of its parent package: from . import x7, from pa.sub import x7 as m3
+            parent = rng.choice(spellings(package, dotted[:-1]) if package else ['.'.join(dotted[:-1])])
+            if rng.random() < 0.4:
+                a = unique(alias_prefix)
+                return 'from %s import %s as %s' % (parent, dotted[-1], a), {a: ('module', dotted)}, []
+            return 'from %s import %s' % (parent, dotted[-1]), {dotted[-1]: ('module', dotted)}, []
+        spelled = rng.choice(spellings(package, dotted) if package else ['.'.join(dotted)])
+        if form == 'star':
+            return 'from %s import *' % spelled, dict(t['exports']), t['reach'] + ['.'.join(dotted)]
+        n = rng.choice(sorted(t['exports']))
+        if form == 'name' and n not in own_children:
+            # (own_children, known finding "[circular re-export of the name]" of part B: a package __init__ that
+            # imports the name of one of its own sub-modules from a module that has it from `from . import name` -
+            # pa/__init__.py: from .core import x9; pa/core.py: from . import x9; pa/x9.py - Python gives the
+            # sub-module, jedi infers it but goto(follow_imports) returns [].  Such a name gets an alias.)
+            return 'from %s import %s' % (spelled, n), {n: t['exports'][n]}, []
+        a = unique(alias_prefix)
+        return 'from %s import %s as %s' % (spelled, n, a), {a: t['exports'][n]}, []
+
+    def gen_file(rel, dotted, is_init):
+        package = dotted if is_init else dotted[:-1]
+        targets = []
+        if entries:
+            n_imp = rng.choices([0, 1, 2, 3], weights=[15, 35, 35, 15])[0]
+            for _ in range(n_imp):
+                same = [e for e in entries if targets and e['dotted'][-1] in {t['dotted'][-1] for t in targets}
+                        and e not in targets]
+                pick = rng.choice(same) if same and rng.random() < 0.5 else rng.choice(entries)
+                if pick not in targets:
+                    targets.append(pick)
+        parts = [('import', t) for t in targets]
+        n_def = rng.choices([0, 1, 2], weights=[20, 50, 30])[0]
+        parts += [('def', rng.choice(['function', 'class', 'statement'])) for _ in range(n_def)]
+        rng.shuffle(parts)
+        lines, exports, reach = [], {}, []
+        for kind, p in parts:
+            if kind == 'import':
+                text, bound, reached = statement(rng, package, p, 'm', 5,
+                                                 children.get(dotted, ()) if is_init else ())
+                lines.append(text)
+                exports.update(bound)
+                reach += reached
+            else:
+                name = unique({'function': 'f', 'class': 'c', 'statement': 's'}[p])
+                loc = 'LOC:%s:%d:%s' % (rel, len(lines) + 1, name)
+                if p == 'function':
+                    lines.append('def %s(): return 0' % name)
+                elif p == 'class':
+                    lines.append("class %s: LOC = '%s'" % (name, loc))
+                else:
+                    lines.append("%s = '%s'" % (name, loc))
+                exports[name] = ('def', rel, len(lines), name, p)
+        files[rel] = ''.join(l + '\n' for l in lines)
+        modules[dotted] = ('file', rel)
+        entries.append({'rel': rel, 'dotted': dotted, 'init': is_init, 'exports': exports, 'reach': reach})
+
+    def gen_package(dirs, dotted, namespace):
+        """dirs: the directories of the package (several for a namespace package that is split over the roots)"""
+        depth = len(dotted)
+        leaves = rng.sample(C_LEAVES, rng.choice([1, 2, 2, 3]))
+        items = [(n, 'mod') for n in leaves]
+        items += [(unique('x'), 'mod') for _ in range(rng.choice([0, 1, 1, 2]))]
+        if depth < MAX_DOTTED - 1 and rng.random() < (0.5 if depth == 1 else 0.3):
+            items.append((rng.choice([n for n in C_SUBS if n not in leaves]), 'pkg'))
+        rng.shuffle(items)
+        children[dotted] = [n for n, _ in items]
+        for name, what in items:
+            d = rng.choice(dirs)
+            if what == 'mod':
+                gen_file(os.path.join(d, name + '.py'), dotted + (name,), False)
+            else:
+                gen_package([os.path.join(d, name)], dotted + (name,), False)
+        if namespace:
+            modules[dotted] = ('namespace', list(dirs))
+        else:
+            gen_file(os.path.join(dirs[0], '__init__.py'), dotted, True)
+
+    units = [(n, 'pkg') for n in rng.sample(C_TOPS, rng.choice([2, 3, 3, 4]))]
+    if rng.random() < 0.45:
+        units.append((rng.choice(C_LEAVES), 'mod'))
+    rng.shuffle(units)
+    namespace_unit = rng.choice([n for n, w in units if w == 'pkg']) if rng.random() < 0.2 else None
+    for name, what in units:
+        if what == 'mod':
+            gen_file(os.path.join(rng.choice(rootnames), name + '.py'), (name,), False)
+        elif name == namespace_unit:
+            gen_package([os.path.join(r, name) for r in rootnames], (name,), True)
+        else:
+            gen_package([os.path.join(rng.choice(rootnames), name)], (name,), False)
+    script_root = rng.choice(rootnames)
+    files[os.path.join(script_root, SCRIPT_IN_ROOT + '.py')] = ''
+    order = list(rootnames)
+    rng.shuffle(order)
+
+    all_names = sorted({n for e in entries for n in e['exports']})
+    return {'index': index, 'roots': order, 'files': files, 'entries': entries, 'modules': modules,
+            'children': children, 'all_names': all_names, 'script_in_root': os.path.join(script_root, SCRIPT_IN_ROOT + '.py'),
+            'statement': statement}
+
+
+def gen_star_programs(seed, layout, n_queries):
+    rng = random.Random('CQ:%s:%s' % (seed, layout['index']))
+    entries, statement = layout['entries'], layout['statement']
+    queries, seen = [], set()
+    for _ in range(n_queries * 4):
+        if len(queries) >= n_queries:
+            break
+        r = rng.random()
+        if r < 0.3:
+            importer, idx = ('main.py', None, None), len(entries)
+        elif r < 0.42:
+            importer, idx = (layout['script_in_root'], SCRIPT_IN_ROOT, None), len(entries)
+        else:
+            idx = rng.randrange(len(entries))
+            importer = (entries[idx]['rel'], '.'.join(entries[idx]['dotted']), entries[idx])
+        available = entries[:idx]
+        if not available:
+            continue
+        entry = importer[2]
+        package = () if entry is None else entry['dotted'] if entry['init'] else entry['dotted'][:-1]
+        bound = dict(entry['exports']) if entry else {}
+        reach = list(entry['reach']) if entry else []
+        new = {}
+        lines, targets, modules_bound = [], [], []
+        for _ in range(rng.choices([1, 2, 3], weights=[25, 45, 30])[0]):
+            same = [e for e in available if targets and e['dotted'][-1] in {t['dotted'][-1] for t in targets}
+                    and e not in targets]
+            t = rng.choice(same) if same and rng.random() < 0.55 else rng.choice(available)
+            if t in targets:
+                continue
+            targets.append(t)
+            text, b, reached = statement(rng, package, t, 'zq', 6)
+            lines.append(text)
+            new.update(b)
+            reach += reached
+            if text.startswith('import '):
+                modules_bound.append((sorted(b)[0], t))
+        bound.update(new)
+        if entry is not None and entry['init'] and set(new) & set(layout['children'].get(entry['dotted'], ())):
+            # Known finding "[circular re-export of the name]" (part B): a package __init__ that imports the name of
+            # one of its own sub-modules from a module that got it with `from <the package> import name`
+            # (pb/__init__.py: from pb.sub import x1; pb/sub/__init__.py: from .. import x1; pb/x1.py): Python gives the
+            # sub-module, jedi infers it but goto(follow_imports) returns [].  As in part B a program in a package
+            # __init__ does not bind the name of a sub-module of that package.
+            continue
+        r = rng.random()
+        with_attr = [(a, t) for a, t in modules_bound if t['exports']]
+        if with_attr and r < 0.2:
+            a, t = rng.choice(with_attr)
+            n = rng.choice(sorted(t['exports']))
+            usage, expected = '%s.%s' % (a, n), t['exports'][n]
+        elif new and r < 0.8:
+            usage = rng.choice(sorted(new))
+            expected = new[usage]
+        else:
+            usage = rng.choice(layout['all_names'])
+            expected = bound.get(usage)
+            if expected is None and entry is not None and entry['init'] \
+                    and usage in layout['children'].get(entry['dotted'], ()):
+                # (a bare name in a package __init__ that is the name of a sub-module of the package and that no code
+                # binds: bound in the interpreter if and only if something has imported the sub-module before)
+                continue
+        key = (importer[0], tuple(lines), usage)
+        if key in seen:
+            continue
+        seen.add(key)
+        last = [d.rpartition('.')[2] for d in dict.fromkeys(reach)]
+        queries.append({'importer': importer[0], 'dotted': importer[1], 'stmts': ''.join(l + '\n' for l in lines),
+                        'usage': usage, 'expected': expected, 'n_star': sum(l.endswith('*') for l in lines),
+                        'reach': len(set(reach)), 'clash': len(set(last)) < len(last)})
+    return queries
+
+
+def _static_answer(layout, top, expected):
+    """what the generator expects the interpreter to answer (a second, independent oracle for the harness itself)"""
+    if expected is None:
+        return ['unbound']
+    if expected[0] == 'module':
+        kind, where = layout['modules'][tuple(expected[1])]
+        if kind == 'file':
+            return ['file', os.path.normpath(os.path.join(top, where))]
+        return ['namespace', sorted(os.path.normpath(os.path.join(top, d)) for d in where)]
+    _, rel, line, name, kind = expected
+    return ['def', os.path.normpath(os.path.join(top, rel)), line, name, kind]
+
+
+def check_star_programs(args):
+    import jedi
+    from parso.cache import parser_cache
+    seed, index, tier = args
+    layout = gen_star_layout(seed, index)
+    queries = gen_star_programs(seed, layout, N_STAR_QUERIES.get(tier, N_STAR_QUERIES['quick']))
+    violations = []
+    evaluations = 0
+    stats = {}
+    top = tempfile.mkdtemp(prefix='star_', dir=os.environ['STANDIN_TMP'])
+    oracle = None
+    try:
+        for rel, text in layout['files'].items():
+            write(os.path.join(top, rel), text)
+        roots = [os.path.join(top, r) for r in layout['roots']]
+        for r in roots:
+            os.makedirs(r, exist_ok=True)
+        cfg = {'top': top, 'roots': roots, 'tops': C_TOPS + C_LEAVES + [SCRIPT_IN_ROOT],
+               'queries': [[q['dotted'], q['stmts'], q['usage']] for q in queries]}
+        oracle = _Oracle(layout, top, cfg, ORACLE_C)
+        answers = oracle.answer('ORACLE-C')
+        oracle.close()
+        oracle = None
+        if len(answers) != len(queries):
+            raise RuntimeError('C10 harness: %d answers for %d programs' % (len(answers), len(queries)))
+        project = jedi.Project(top, sys_path=roots, smart_sys_path=False)
+        for q, want in zip(queries, answers):
+            static = _static_answer(layout, top, q['expected'])
+            if want[0] == 'namespace':
+                want[1] = sorted(want[1])
+            if want[0] in ('file', 'namespace') and want[:len(static)] != static:
+                # The interpreter binds a module where the code of the project binds nothing or another module: a
+                # sub-module is an attribute of its package (and copied by a star import from the package, where it
+                # can hide a sub-module of the same name of the importing package) only because something imported
+                # it before, i.e. the history of the process decides.
+                stats['no expectation (history of the process)'] = stats.get('no expectation (history of the process)', 0) + 1
+                continue
+            if want[:len(static)] != static or want[0] in ('failed', 'value'):
+                raise RuntimeError('C10 harness: the interpreter answers %r, the generator expected %r for %r in %s'
+                                   % (want, static, (q['stmts'], q['usage']),
+                                      _describe_star(layout, q)))
+            body = layout['files'].get(q['importer'], '')
+            code = body + q['stmts'] + q['usage'] + '\n'
+            line = code.count('\n')
+            col = len(q['usage']) - 1
+            path = os.path.join(top, q['importer'])
+            evaluations += 1
+            k = '%d star import(s)%s -> %s' % (q['n_star'], ', modules with the same last name reached' if q['clash']
+                                             else '', want[0])
+            stats[k] = stats.get(k, 0) + 1
+            try:
+                parser_cache.clear()
+                s = jedi.Script(code, path=path, project=project)
+                results = [('infer', s.infer(line, col)),
+                           ('goto(follow_imports)', s.goto(line, col, follow_imports=True))]
+            except Exception:
+                violations.append({'label': 'query raised', 'input': _describe_star(layout, q),
+                                   'observed': traceback.format_exc(limit=3), 'kind': 'star program'})
+                continue
+            finally:
+                parser_cache.clear()
+            for label, got in results:
+                bad = None
+                mods = [n for n in got if n.type in ('module', 'namespace')]
+                if want[0] == 'file':
+                    found = sorted({os.path.normpath(str(n.module_path)) for n in mods if n.module_path is not None})
+                    if found != [want[1]] or len(mods) != len(got):
+                        bad = ('%s resolves an import to a different file than the interpreter' % label,
+                               'python: module %s' % os.path.relpath(want[1], top))
+                elif want[0] == 'namespace':
+                    dirs = [_ns_paths(n) for n in got if n.type == 'namespace']
+                    if not got or len(dirs) != len(got) or any(d is not None and set(d) != set(want[1]) for d in dirs):
+                        bad = ('%s resolves a namespace package to different directories' % label,
+                               'python: namespace %r' % [os.path.relpath(p, top) for p in want[1]])
+                elif want[0] == 'def':
+                    wfile, wline, wname, wkind = want[1:5]
+                    if label == 'infer' and wkind == 'statement':
+                        if mods:
+                            bad = ('%s resolves an imported name to a different definition than the interpreter'
+                                   % label, 'python: string defined at %s:%d' % (os.path.relpath(wfile, top), wline))
+                    else:
+                        have = sorted((os.path.normpath(str(n.module_path)), n.line, n.name) for n in got
+                                      if n.module_path is not None)
+                        if have != [(wfile, wline, wname)] or len(have) != len(got):
+                            bad = ('%s resolves an imported name to a different definition than the interpreter'
+                                   % label, 'python: %s %s defined at %s:%d'
+                                   % (wkind, wname, os.path.relpath(wfile, top), wline))
+                else:   # unbound
+                    if got:
+                        bad = ('%s resolves a name that no import of the program binds' % label,
+                               'python: NameError / AttributeError')
+                if bad:
+                    violations.append({'label': bad[0], 'input': _describe_star(layout, q),
+                                       'observed': '%s; jedi (%s at the use): %r' % (bad[1], label, _names(got, top)),
+                                       'kind': 'star program (%d star imports, %s) expecting %s'
+                                               % (min(q['n_star'], 2), 'clash' if q['clash'] else 'no clash', want[0])})
+        sample = {'sys.path': layout['roots'], 'files': sorted(layout['files']),
+                  'programs': [(q['importer'], q['stmts'], q['usage'],
+                                [w[0]] + ([os.path.relpath(w[1], top)] if w[0] in ('file', 'def') else []) + w[2:4])
+                               for q, w in zip(queries, answers)][:4]}
+    finally:
+        if oracle is not None:
+            oracle.p.kill()
+            oracle.p.wait()
+        shutil.rmtree(top, ignore_errors=True)
+    return evaluations, violations, [sample], stats
+
+
+def _describe_star(layout, q):
+    return repr({'sys.path': layout['roots'], 'from': q['importer'], 'program': q['stmts'], 'use': q['usage'],
+                 'files': {k: v for k, v in sorted(layout['files'].items())}})
+
+
 def interpreter_sys_path():
     """sys.path of a fresh interpreter of the environment (what Project(added_sys_path=...) extends)"""
     env = dict(os.environ)
@@ -1065,13 +1501,22 @@ def run(repo, seed, tier):
     base = interpreter_sys_path()
     lay = layouts(tier, seed)
     n_generated = N_LAYOUTS.get(tier, N_LAYOUTS['quick'])
+    n_star = N_STAR_LAYOUTS.get(tier, N_STAR_LAYOUTS['quick'])
     with mp.get_context('fork').Pool(min(16, os.cpu_count() or 4), initializer=_init_worker) as pool:
         gen = pool.map_async(check_generated, [(seed, i, tier, base) for i in range(n_generated)], chunksize=1)
+        star = pool.map_async(check_star_programs, [(seed, i, tier) for i in range(n_star)], chunksize=1)
         results = pool.map(check_layout, lay, chunksize=2)
         results_b = gen.get()
-    evaluations = sum(r[0] for r in results) + sum(r[0] for r in results_b)
-    violations = [v for r in results for v in r[1]] + [v for r in results_b for v in r[1]]
-    samples = [x for r in results for x in r[2]][:1] + [x for r in results_b for x in r[2]][:2]
+        results_c = star.get()
+    evaluations = sum(r[0] for r in results) + sum(r[0] for r in results_b) + sum(r[0] for r in results_c)
+    violations = [v for r in results for v in r[1]] + [v for r in results_b for v in r[1]] \
+        + [v for r in results_c for v in r[1]]
+    samples = [x for r in results for x in r[2]][:1] + [x for r in results_b for x in r[2]][:2] \
+        + [x for r in results_c for x in r[2]][:1]
+    star_stats = {}
+    for r in results_c:
+        for k, v in r[3].items():
+            star_stats[k] = star_stats.get(k, 0) + v
     stats = {}
     for r in results_b:
         for k, v in r[3].items():
@@ -1114,7 +1559,26 @@ def run(repo, seed, tier):
                     'bindings of one name inside a file of the tree (star import after an explicit binding, nested star '
                     'imports, from . import name after a binding of name, star-imported name vs sub-module of the same '
                     'name, circular re-exports) are reported under the same labels with a suffix in square brackets.  Dotted name: every file that the interpreter loads '
-                    'under the name its path spells must get that name from jedi (full_name of a probe definition).'
-                    % (n_generated, POOL, N_QUERIES.get(tier, N_QUERIES['quick'])),
+                    'under the name its path spells must get that name from jedi (full_name of a probe definition).  '
+                    'C: %d seeded random projects for star import programs: 1-2 roots, 2-4 units (regular packages with '
+                    'nested sub-packages up to dotted depth 4, a namespace package split over the roots, top-level '
+                    'modules) generated in a topological order of their imports; modules, sub-packages and top-level '
+                    'modules share the last name components %r across packages; every file binds project-unique names '
+                    '(functions, classes, strings, aliases of modules / imported names, from . import x7) and star-imports '
+                    '(absolutely or relatively) up to 3 earlier files, giving chains and diamonds of star imports; per '
+                    'project <= %d programs of 1-3 import statements (from T import * [absolute / relative], from T '
+                    'import N [as z] for names T has itself or only through its star imports, import T as z + z.N for '
+                    'top-level T, from P import uniquely named sub-module [as z]) appended to a script outside sys.path, a script in a root or a module / '
+                    '__init__.py of the tree (which then only imports earlier files); infer() and '
+                    'goto(follow_imports=True) at a use of a name bound by the program or of another name of the project; '
+                    'oracle = the child interpreter running the program in the really imported module (cross-checked '
+                    'against the binding the generator computed); a name that nothing binds must resolve to nothing.  No '
+                    'expectation where only the history of the process decides (a sub-module that is an attribute of '
+                    'its package only because something imported it before; therefore modules with a shared last name '
+                    'are only named in from-parts, never looked up as attributes of a package) and none for the known '
+                    'finding [circular re-export of the name] (a package __init__ never imports the name of one of its '
+                    'own sub-modules from another module).'
+                    % (n_generated, POOL, N_QUERIES.get(tier, N_QUERIES['quick']),
+                       n_star, C_LEAVES, N_STAR_QUERIES.get(tier, N_STAR_QUERIES['quick'])),
             'samples': samples, 'violations': reported,
-            'violation_counts': counts, 'statement_outcomes': stats}
+            'violation_counts': counts, 'statement_outcomes': stats, 'star_program_outcomes': star_stats}
